@@ -161,10 +161,11 @@ def _safe_div(a, b):
 
 
 class SymReal:
-    __slots__ = ("t",)
+    __slots__ = ("t", "sq")
 
-    def __init__(self, t):
+    def __init__(self, t, sq=None):
         self.t = t
+        self.sq = sq          # exact square, when this value was produced by sqrt()
 
     def __format__(self, f):
         return "<sym>"
@@ -206,6 +207,8 @@ class SymReal:
             return NotImplemented
         if _isinf(o):
             raise NonFinite("inf * symbolic")
+        if o is s and s.sq is not None:
+            return s.sq
         return SymReal(s.t * R(o))
 
     def __rmul__(s, o):
@@ -252,6 +255,8 @@ class SymReal:
                 raise NotImplementedError("symbolic exponent")
         if isinstance(o, (int, _np.integer)) or (isinstance(o, (float, Fraction)) and float(o).is_integer()):
             k = int(o)
+            if k == 2 and s.sq is not None:
+                return s.sq
             if k >= 0:
                 r = z3.RealVal(1)
                 for _ in range(k):
@@ -273,6 +278,9 @@ class SymReal:
         if num < 0:
             return 1 / s.root_pow(-num, den)
         c = Ctx.cur
+        ckey = (z3.simplify(s.t, som=True).sexpr(), num, den)
+        if ckey in c._roots:
+            return c._roots[ckey]
         v = c.fresh("rt")
         vp = z3.RealVal(1)
         for _ in range(den):
@@ -281,7 +289,9 @@ class SymReal:
         r = z3.RealVal(1)
         for _ in range(num):
             r = r * v
-        return SymReal(r)
+        out = SymReal(r, sq=(s if (num == 1 and den == 2) else None))
+        c._roots[ckey] = out
+        return out
 
     def sqrt(s):
         return s.root_pow(1, 2)
@@ -491,6 +501,7 @@ class Ctx:
         self.names = {}
         self._nfresh = 0
         self._alg = {}
+        self._roots = {}
 
     def algebraic_const(self, name, degree, radicand, factor):
         if name not in self._alg:
